@@ -11,7 +11,11 @@ power of two between 1 KiB and 256 KiB, i.e. up to 384 KiB handed over in ONE
 consumer.write(), its content different in every KiB), honours pause/resume,
 and ends by finishing, failing, writing too few / too many bytes, or being
 cancelled (stopWriting / Deferred.cancel) at any step.  Methods, targets and header sets are drawn from grammars that include
-invalid bytes in method/target.
+invalid bytes in method/target.  In a share HISTORY_P of the runs the request under test is not the first traffic of the process:
+one to four small earlier requests (own Request objects and transports) take their method, target and a header value from ONE
+shared pool of byte strings, so that the same bytes are a target in one request and a method in another (or were refused in
+one role before being used, validly, in the other), each of them judged by itself; the request under test then re-uses, in
+60% of these runs, values of the earlier ones as its method and/or target, whatever role they played there.
 
 Oracle (independent parser = h11 in server role, plus raw-byte assertions):
   * invalid method/target -> ValueError (from the constructor, from writeTo, or
@@ -53,6 +57,7 @@ TECHNIQUE = ("deterministic simulation: real Request.writeTo with a scripted asy
              "back-pressure/cancel; bytes parsed by h11 (server role) against the intended request")
 QUICK_RUNS = 250000
 BIG_P = 0.01    # share of the body-carrying runs in which one piece of the body is large (1 KiB .. 384 KiB)
+HISTORY_P = 0.12   # share of the runs in which a few earlier requests of the same process precede the request under test
 TWIN_P = 0.08   # this share of the runs drives two independent instances of the scenario one after the other (detsim.runner._run_scenario)
 BATCH = 1000
 RUN_WALL_LIMIT_S = 120   # runs take milliseconds; generous so that an overloaded host is not mistaken for a hang
@@ -63,13 +68,18 @@ COMPONENTS = {"real": ["twisted.web._newclient.Request (writeTo, _writeHeaders, 
 RULE = ("run = one request: drawn method/target (valid or with one invalid byte), header set, body kind (none/known/unknown length), producer script "
         "(sync/async pieces of 0..300 bytes, in 1% of the runs plus ONE large piece of 2^k-1 / 2^k / 2^k+1 / 2^k+few / 1.5*2^k bytes, k=10..18, "
         "written in a single consumer.write() synchronously or later, for known and unknown length; end = finish/fail/short/excess/cancel), "
-        "transport hwm and drain schedule; non-trivial = a body producer ran and "
+        "transport hwm and drain schedule; in 12% of the runs preceded by 1..4 small earlier requests of the same process whose method, target and a header "
+        "value come from one shared pool of byte strings (same bytes in different roles, valid in one and invalid in the other), the request under test "
+        "then re-using their values as its method/target in 60% of these; module-level containers of the modules under test are put back to their import-time "
+        "contents when a run starts, so that a run depends on its tape only; non-trivial = a body producer ran and "
         "(it was paused by the transport, or produced asynchronously, or ended abnormally) or the method/target was invalid")
 ASSUMPTIONS = ["header names are tokens and values contain no CR/LF/NUL (the statement quantifies over valid header sets); exactly one Host header",
                "the producer honours pauseProducing (does not write while paused)",
                "how a producer splits its body into write() calls is its own business: any single write of up to a few hundred KiB is a valid delivery "
                "(the statement quantifies over bodies, not over deliveries), and the wire may split or coalesce it into chunks as it likes as long as "
-               "the independent parser reads the same body back"]
+               "the independent parser reads the same body back",
+               "whether a method or target is refused depends on that byte string and the role it plays in that request only, not on what other "
+               "requests of the process used before (the statement quantifies over methods and targets, not over process histories)"]
 
 TOKEN = b"!#$%&'*+-.^_`|~0123456789ABCDEFGHIJKLMNOPQRSTUVWXYZabcdefghijklmnopqrstuvwxyz"
 BAD_METHOD_BYTES = [b" ", b"\r", b"\n", b"\x00", b"\x7f", b"\x80", b"\xff", b"(", b")", b",", b"/", b":", b";", b"<", b"=", b">", b"?", b"@",
@@ -262,16 +272,124 @@ def strip_ows(v):
     return v.strip(b" \t")
 
 
+# Byte strings that a process meets in more than one role: each of them is a method in one request, a target in another and a
+# header value in a third.  Whether a request is refused depends on the value and the role it plays in THAT request only.
+SHARED_POOL = [b"GET", b"/", b"*", b"OPTIONS", b"/index.html", b"http://h.example:80/p", b"k=v", b"a,b", b"x:y", b"(x)", b"/a?b=c",
+               b"two words", b"caf\xe9", b"sim.example", b"X-A", b""]
+
+
+def history(sim):
+    """Earlier traffic of the same process: a few small requests (own Request objects, own transports) whose method, target and
+    one header value are drawn from one shared pool, so that the same byte string is met as a target here and as a method there
+    (and the other way round, and after having been refused in one role).  Every one of them is held to the statement by
+    itself; returns the byte strings used, in order of first use."""
+    sim.probe("earlier_requests_in_process")
+    seen = []
+    for i in range(sim.draw_int(1, 4, "nhist")):
+        m = sim.draw_choice(SHARED_POOL, "hist-method")
+        u = sim.draw_choice(SHARED_POOL[1:] + SHARED_POOL[:1], "hist-target")
+        v = sim.draw_choice(SHARED_POOL[11:] + SHARED_POOL[:11], "hist-hval")
+        late = sim.draw_bool(0.3, "hist-late")
+        mv, uv = method_valid(m), target_valid(u)
+        for role, x in (("method", m), ("target", u), ("hval", v)):
+            if any(x == y and role != r for r, y in seen):
+                sim.probe("value_met_again_in_another_role")
+        if not mv and any(m == y and r == "target" and target_valid(y) for r, y in seen):
+            sim.probe("invalid_method_equal_to_earlier_valid_target")
+        if (mv and any(m == y and r == "target" and not target_valid(y) for r, y in seen)) or \
+                (uv and any(u == y and r == "method" and not method_valid(y) for r, y in seen)):
+            sim.probe("valid_value_equal_to_one_refused_earlier_in_the_other_role")
+        hdrs = Headers()
+        hdrs.addRawHeader(b"Host", b"sim.example")
+        if v:
+            hdrs.addRawHeader(b"X-Earlier", v)
+        t = net.SimTransport(sim, "h%d" % i)
+        refused, res, r = False, [], None
+        if late:
+            with sim.guard("valid-request-refused", "history-constructor"):
+                r = _newclient.Request(b"GET", b"/", hdrs, None)
+            r.method, r.uri = m, u
+        try:
+            if not late:
+                r = _newclient.Request(m, u, hdrs, None)
+            r.writeTo(t).addBoth(res.append)
+            if res and isinstance(res[0], Failure):
+                refused = res[0].check(ValueError) is not None
+        except ValueError:
+            refused = True
+        except Exception as e:
+            sim.fail("writeTo-raised", "history:" + type(e).__name__, "earlier request method=%r target=%r: %s" % (m, u, str(e)[:120]))
+        sim.event("earlier", m, u, v, "late" if late else "ctor", "refused" if refused else "written")
+        if mv and uv:
+            sim.check("valid-request-accepted", not refused, "history", lambda: "refused valid method=%r target=%r; earlier in this process: %r" % (m, u, seen))
+            ev, body, complete, err, trailing = h11_parse(bytes(t.written))
+            sim.check("parses", ev is not None and err is None and complete and not trailing, "history", lambda: "h11: %r wire %r" % (err, bytes(t.written)[:80]))
+            sim.check("request-line", bytes(ev.method) == m and bytes(ev.target) == u, "history",
+                      lambda: "wire carries %r %r, intended %r %r" % (bytes(ev.method), bytes(ev.target), m, u))
+            want = sorted([(b"host", b"sim.example")] + ([(b"x-earlier", strip_ows(v))] if v else []))
+            got = sorted((bytes(n), bytes(x)) for n, x in ev.headers if bytes(n) != b"connection")
+            sim.check("headers-equal", got == want, "history", lambda: "parsed %r intended %r" % (got, want))
+        else:
+            sim.check("invalid-refused", refused and not t.written, "history-" + ("method" if not mv else "target"),
+                      lambda: "method=%r target=%r was not refused; wire %r; earlier in this process: %r" % (m, u, bytes(t.written)[:80], seen))
+        seen += [("method", m), ("target", u), ("hval", v)]
+    out = []
+    for _, x in seen:
+        if x not in out:
+            out.append(x)
+    return out
+
+
+# Module-level containers and memoised functions of the modules under test, with their contents at import time.  A run must be a
+# function of its tape: whatever earlier runs of a warm worker left in them is removed when a run starts (once per run, so the
+# two instances of a twin run and the earlier requests of history() still share a process the way real requests do), and a
+# violation that needs such state carries the traffic that built it in its own tape and replays in a fresh interpreter.
+_PRISTINE = []
+_MEMOISED = []
+for _m in (_newclient, __import__("twisted.web.http_headers", fromlist=["x"])):
+    for _k, _v in sorted(vars(_m).items()):
+        if _k.startswith("__"):
+            continue
+        if type(_v) in (dict, set, list):
+            _PRISTINE.append((_v, type(_v)(_v)))
+        elif callable(getattr(_v, "cache_clear", None)) and getattr(_v, "__module__", None) == _m.__name__:
+            _MEMOISED.append(_v)
+
+
+def reset_process_state(sim):
+    if getattr(sim, "c24_process_state_reset", False):
+        return
+    sim.c24_process_state_reset = True
+    for live, copy in _PRISTINE:
+        if type(live) is list:
+            live[:] = copy
+        else:
+            live.clear()
+            live.update(copy)
+    for f in _MEMOISED:
+        f.cache_clear()
+
+
 def run(sim):
     # process-global mutable state (header-name cache) must not leak between runs in a warm worker
+    reset_process_state(sim)
     try:
         from twisted.web import http_headers as _hh
         _hh._nameEncoder._canonicalHeaderCache.clear()
     except AttributeError:
         pass
+    earlier = history(sim) if sim.draw_bool(HISTORY_P, "history") else []
     method = gen_method(sim)
     target = gen_target(sim)
     headers = gen_headers(sim)
+    if earlier and sim.draw_bool(0.6, "cross_role"):
+        # the request under test re-uses byte strings that earlier requests of this process used, in whatever role
+        which = sim.draw_choice(["method", "target", "both"], "cross_which")
+        if which != "target":
+            method = sim.draw_choice(earlier, "cross-method")
+        if which != "method":
+            target = sim.draw_choice(earlier, "cross-target")
+        sim.probe("request_reuses_earlier_values")
     persistent = sim.draw_bool(0.5, "persistent")
     kind = sim.draw_weighted([("known", 4), ("unknown", 4), ("none", 2)], "body")
     mvalid, tvalid = method_valid(method), target_valid(target)
@@ -353,7 +471,8 @@ def run(sim):
         with sim.guard("valid-request-refused", "constructor"):
             req = _newclient.Request(method, target, hdrs, prod, persistent=persistent)
     elif late_corrupt:
-        req = _newclient.Request(b"GET", b"/", hdrs, prod, persistent=persistent)
+        with sim.guard("valid-request-refused", "constructor"):
+            req = _newclient.Request(b"GET", b"/", hdrs, prod, persistent=persistent)
         req.method, req.uri = method, target
     else:
         try:
@@ -517,7 +636,7 @@ def run(sim):
         reissue(sim)
 
 
-REISSUE_METHODS = [b"PUT", b"DELETE", b"M-SEARCH", b"GE T", b"GET\r\nX: y", b"", b"P\x00ST"]
+REISSUE_METHODS = [b"PUT", b"DELETE", b"M-SEARCH", b"GE T", b"GET\r\nX: y", b"", b"P\x00ST", b"/first"]   # the last one: the value just sent as the target
 REISSUE_TARGETS = [b"/second?x=1", b"*", b"/a%20b", b"/a b", b"/x\r\nHost: evil", b"/t\n", b"/\x7f"]
 
 
@@ -525,7 +644,8 @@ def reissue(sim):
     """The same Request object written twice with its public method / uri reassigned in between: the second write
     must carry (or refuse) the values the object holds at that moment."""
     sim.probe("request_object_reissued")
-    r = _newclient.Request(b"GET", b"/first", Headers({b"host": [b"sim.example"]}), None)
+    with sim.guard("valid-request-refused", "reissue-constructor"):
+        r = _newclient.Request(b"GET", b"/first", Headers({b"host": [b"sim.example"]}), None)
     t1 = net.SimTransport(sim, "c1")
     with sim.guard("writeTo-raised", "first-write"):
         r.writeTo(t1)
@@ -582,4 +702,9 @@ MUTANTS = [
     "_newclient.py ChunkedEncoder.write: chunk size line keeps only its last 4 hex digits -> caught (parses:unknown)",
     "_newclient.py ChunkedEncoder.write: one byte lost at offset 32 KiB of a chunk -> caught (parses:unknown)",
     "_newclient.py LengthEnforcingConsumer.write: at most 128 KiB of one write forwarded -> caught (message-complete:known / body-prefix:known / no-extra-bytes:short)",
+    "(process-history family, round 5: the same byte strings in different roles across the requests of one process)",
+    "_newclient.py _ensureValidMethod/_ensureValidURI share one module-level memo of values that passed (a target seen before is accepted as a method) "
+    "-> caught (invalid-refused:history-method / invalid-refused:method / invalid-refused:reissue)",
+    "_newclient.py _ensureValidMethod/_ensureValidURI share one module-level set of values refused before (a value refused as a method is refused as a target "
+    "ever after) -> caught (valid-request-accepted:history / valid-request-refused:constructor / valid-request-refused:history-constructor)",
 ]
